@@ -10,6 +10,7 @@ import NngModel.Proofs.UrlCanon
 import NngModel.Proofs.UrlDot
 import NngModel.Proofs.UrlRound
 import NngModel.Proofs.UrlBufSafe
+import NngModel.Proofs.UrlBufEqNul
 import NngModel.Generated.C19
 namespace Nng.C19
 open Nng Nng.Url Nng.UrlSpec Nng.UrlProofs
@@ -262,4 +263,137 @@ example : ((⟨#[1, 2, 3], true⟩ : UrlBuf.Mem).wr 3 0).safe = false := by deci
     run, through the driver) -/
 example : (UrlBuf.parse ex1).url = (parse ex1).url ∧ (UrlBuf.parse ex4).url = (parse ex4).url ∧
     (UrlBuf.parse ex2).url = (parse ex2).url ∧ (UrlBuf.parse ex1).mem.safe = true := by decide +kernel
+end Nng.C19
+
+/-! ### T11–T13: the in-place buffer model computes the functional model (C19EQ)
+
+  Lemmas: Proofs/UrlBufEq{Base,Canon1,Canon2,Canon3,Stages,HostPort,Parse,Nul}.lean — one lemma
+  per loop (explicit invariant: write index ≤ read index, the output so far is the functional
+  output so far, the unread input is untouched), one per parser stage.  `R.view` is what the
+  caller of nng_url_parse sees: the return value and every component read back from the final
+  buffer as the C string at the offset the parser computed (up to the NUL it inserted). -/
+namespace Nng.C19
+open Nng Nng.Url Nng.UrlSpec Nng.UrlProofs
+
+/-- T11 (flagship). For EVERY C string `raw` (a NUL-free byte list: the input of nng_url_parse
+    is NUL-terminated) and every content `pad` of the allocation behind the copied string, the
+    in-place parser — host `memmove`, NULs written over '@' ':' ']' '?' '#', three canonicaliser
+    passes with `src`/`dst`, the `dst--` scan — returns the same code (0, NNG_EINVAL,
+    NNG_ENOTSUP) as the functional model, and on acceptance the scheme, userinfo, host, port,
+    path, query and fragment read back from the buffer are the functional model's. -/
+theorem buf_parse_eq_functional (raw pad : Bytes) (hz : (0 : UInt8) ∉ raw) :
+    (UrlBuf.parseWith raw pad).view = Url.parse raw :=
+  UrlBufEq.parseWith_eq raw pad hz
+
+/-- T11b. The same in the allocation nng_url_parse really makes (heap copy or `u_static`). -/
+theorem buf_parse_eq (raw : Bytes) (hz : (0 : UInt8) ∉ raw) : (UrlBuf.parse raw).view = Url.parse raw :=
+  UrlBufEq.parseWith_eq raw _ hz
+
+/-- T11c. Field by field: same return value, same URL (or none). -/
+theorem buf_parse_fields (raw pad : Bytes) (hz : (0 : UInt8) ∉ raw) :
+    (UrlBuf.parseWith raw pad).rv = (Url.parse raw).rv ∧ (UrlBuf.parseWith raw pad).url = (Url.parse raw).url := by
+  have := buf_parse_eq_functional raw pad hz
+  rw [← this]; exact ⟨rfl, rfl⟩
+
+/-- T11d. nni_url_canonify_uri run in place (any buffer content behind the string) and read back
+    equals `canonify`, failure included. -/
+theorem buf_canonify_eq_functional (s pad : Bytes) (hz : (0 : UInt8) ∉ s) :
+    UrlBuf.canonifyBuf s pad = canonify s :=
+  UrlBufEq.canonifyBuf_eq s pad hz
+
+/-- T12. "The real parser's in-place algorithm, as modelled, is memory safe AND computes the
+    specified function": no access outside the allocation, no loop past the buffer, and the
+    result is the functional model's — about which T2–T9 are proved. -/
+theorem buf_safe_and_correct (raw pad : Bytes) (hz : (0 : UInt8) ∉ raw) :
+    (UrlBuf.parseWith raw pad).mem.safe = true ∧ (UrlBuf.parseWith raw pad).view = Url.parse raw :=
+  ⟨parse_in_bounds raw pad, buf_parse_eq_functional raw pad hz⟩
+
+/-! T13: every theorem about `parse` transferred to the buffer model. -/
+
+theorem buf_accepted_scheme_exact (raw pad : Bytes) (hz : (0 : UInt8) ∉ raw) (u : Url) (rv : Nat)
+    (h : (UrlBuf.parseWith raw pad).view = ⟨rv, some u⟩) :
+    rv = 0 ∧ KnownScheme u.scheme ∧ ∃ rest, raw = u.scheme ++ sepBytes ++ rest :=
+  accepted_scheme_exact raw hz u rv (buf_parse_eq_functional raw pad hz ▸ h)
+
+theorem buf_accepted_bounds (raw pad : Bytes) (hz : (0 : UInt8) ∉ raw) (u : Url) (rv : Nat)
+    (h : (UrlBuf.parseWith raw pad).view = ⟨rv, some u⟩) :
+    u.port ≤ 65535 ∧ ∀ name, u.hostname = some name → name.length < Generated.urlHostMax :=
+  accepted_bounds raw hz u rv (buf_parse_eq_functional raw pad hz ▸ h)
+
+theorem buf_accepted_components (raw pad : Bytes) (hz : (0 : UInt8) ∉ raw) (u : Url) (rv : Nat)
+    (h : (UrlBuf.parseWith raw pad).view = ⟨rv, some u⟩) (hs : specialSchemes.contains u.scheme = false) :
+    ∃ rest c a, raw = u.scheme ++ sep ++ rest ∧
+      canonify (rest.dropWhile (fun c => !isAuthEnd c)) = some c ∧
+      pass1 (rest.dropWhile (fun c => !isAuthEnd c)) = some a ∧
+      u.path ++ optPart QM u.query ++ optPart HASH u.fragment = c ∧ WellFormedUtf8 c :=
+  accepted_components raw hz u rv (buf_parse_eq_functional raw pad hz ▸ h) hs
+
+/-- the components the in-place parser leaves in the buffer are canonical -/
+theorem buf_accepted_canonical (raw pad : Bytes) (hz : (0 : UInt8) ∉ raw) (u : Url) (rv : Nat)
+    (h : (UrlBuf.parseWith raw pad).view = ⟨rv, some u⟩) (hs : specialSchemes.contains u.scheme = false) :
+    Canonical (u.path ++ optPart QM u.query ++ optPart HASH u.fragment) ∧
+    WellFormedUtf8 (u.path ++ optPart QM u.query ++ optPart HASH u.fragment) ∧
+    isSegEnd (u.path ++ optPart QM u.query ++ optPart HASH u.fragment) = true :=
+  accepted_canonical raw hz u rv (buf_parse_eq_functional raw pad hz ▸ h) hs
+
+/-- whatever the in-place canonicaliser leaves in the buffer is canonical and well-formed UTF-8 -/
+theorem buf_canonical_output (s pad r : Bytes) (hz : (0 : UInt8) ∉ s) (h : UrlBuf.canonifyBuf s pad = some r) :
+    Canonical r ∧ WellFormedUtf8 r := by
+  rw [buf_canonify_eq_functional s pad hz] at h
+  exact ⟨canonical_output s r h, canonify_wellFormed s r h⟩
+
+/-- the in-place canonicaliser is idempotent: run again (in any buffer) on what it left, it
+    succeeds and changes nothing -/
+theorem buf_canonify_idempotent (s pad pad' r : Bytes) (hz : (0 : UInt8) ∉ s)
+    (h : UrlBuf.canonifyBuf s pad = some r) : UrlBuf.canonifyBuf r pad' = some r := by
+  have hr := UrlBufEq.canonifyBuf_nz s pad r h
+  rw [buf_canonify_eq_functional s pad hz] at h
+  rw [buf_canonify_eq_functional r pad' hr]
+  exact canonify_idempotent s r h
+
+theorem buf_heap_size_covers (raw pad : Bytes) (hz : (0 : UInt8) ∉ raw) (u : Url) (rv : Nat)
+    (h : (UrlBuf.parseWith raw pad).view = ⟨rv, some u⟩) :
+    ∃ rest, raw = u.scheme ++ sep ++ rest ∧
+      (u.bufsz = 0 ∧ (sep ++ rest).length < Generated.urlInlineSize ∨
+       u.bufsz = (sep ++ rest).length + 1 ∧ (sep ++ rest).length ≥ Generated.urlInlineSize) :=
+  heap_size_covers raw hz u rv (buf_parse_eq_functional raw pad hz ▸ h)
+
+/-- what nng_url_sprintf prints for a URL the in-place parser returned is again a C string -/
+theorem buf_sprintf_is_cstring (raw pad : Bytes) (u : Url) (rv : Nat)
+    (h : (UrlBuf.parseWith raw pad).view = ⟨rv, some u⟩) : (0 : UInt8) ∉ sprintf u :=
+  UrlBufEq.parseWith_sprintf_nz raw pad u (by
+    have := congrArg Url.R.url h; exact this)
+
+theorem buf_roundtrip_hostless (raw pad pad' : Bytes) (hz : (0 : UInt8) ∉ raw) (u : Url) (rv : Nat)
+    (h : (UrlBuf.parseWith raw pad).view = ⟨rv, some u⟩) (hs : specialSchemes.contains u.scheme = true) :
+    sprintf u = raw ∧ (UrlBuf.parseWith (sprintf u) pad').view = ⟨0, some u⟩ := by
+  obtain ⟨a, b⟩ := roundtrip_hostless raw hz u rv (buf_parse_eq_functional raw pad hz ▸ h) hs
+  exact ⟨a, by rw [buf_parse_eq_functional _ pad' (buf_sprintf_is_cstring raw pad u rv h)]; exact b⟩
+
+theorem buf_roundtrip_authority_exact (raw pad pad' : Bytes) (hz : (0 : UInt8) ∉ raw) (u : Url) (rv : Nat)
+    (h : (UrlBuf.parseWith raw pad).view = ⟨rv, some u⟩) (hs : specialSchemes.contains u.scheme = false) :
+    ∃ b, (UrlBuf.parseWith (sprintf u) pad').view = ⟨0, some { u with userinfo := none, bufsz := b }⟩ := by
+  obtain ⟨b, hb⟩ := roundtrip_authority_exact raw hz u rv (buf_parse_eq_functional raw pad hz ▸ h) hs
+  exact ⟨b, by rw [buf_parse_eq_functional _ pad' (buf_sprintf_is_cstring raw pad u rv h)]; exact hb⟩
+
+/-- T13 (f). Parse in place, print with nng_url_sprintf, parse the printed string in place again
+    (in any allocation): same scheme, host, port, path, query, fragment. -/
+theorem buf_roundtrip (raw pad pad' : Bytes) (u : Url) (hz : (0 : UInt8) ∉ raw)
+    (h : (UrlBuf.parseWith raw pad).view = ⟨0, some u⟩) :
+    ∃ u', (UrlBuf.parseWith (sprintf u) pad').view = ⟨0, some u'⟩ ∧ u'.scheme = u.scheme ∧
+      u'.hostname = u.hostname ∧ u'.port = u.port ∧ u'.path = u.path ∧ u'.query = u.query ∧
+      u'.fragment = u.fragment := by
+  obtain ⟨u', hu, rest⟩ := roundtrip raw u hz (buf_parse_eq_functional raw pad hz ▸ h)
+  exact ⟨u', by rw [buf_parse_eq_functional _ pad' (buf_sprintf_is_cstring raw pad u 0 h)]; exact hu, rest⟩
+
+/-! non-vacuity -/
+
+example : (UrlBuf.parse ex1).view = Url.parse ex1 ∧ (UrlBuf.parse ex1).view.rv = 0 ∧
+    (UrlBuf.parse ex4).view = Url.parse ex4 ∧ (UrlBuf.parse ex4).view.rv = 0 := by decide +kernel
+example : UrlBuf.canonifyBuf ex3 [0xAA, 0xBB] = some [0x2f, 0x61, 0x2f, 0x7e, 0x63, 0x2f, 0x64] := by decide +kernel
+/-- the hypothesis "`raw` is a C string" is needed: the buffer model stops at a NUL (`tcp://a\0b`
+    has host "a" there), the list model does not -/
+example : (UrlBuf.parse [0x74, 0x63, 0x70, 0x3a, 0x2f, 0x2f, 0x61, 0x00, 0x62]).view ≠
+    Url.parse [0x74, 0x63, 0x70, 0x3a, 0x2f, 0x2f, 0x61, 0x00, 0x62] := by decide +kernel
+
 end Nng.C19
